@@ -619,3 +619,69 @@ fn c12_canary_a64_table_reaches_ok() {
         assert!(!ok, "canary: must fail (Ok reachable)");
     }
 }
+
+// ---------------------------------------------------------------------------------------------
+// RISC-V (RV64): the LUI / AUIPC class
+// ---------------------------------------------------------------------------------------------
+// R_RISCV_HI20, PCREL_HI20, GOT_HI20, TLS_GOT_HI20, TLS_GD_HI20, TPREL_HI20 place X in a U-type
+// instruction (LUI / AUIPC) whose partner (ADDI / LD / JALR ..., relocated by the matching LO12
+// relocation) adds a sign-extended 12-bit immediate; R_RISCV_CALL / CALL_PLT place X in an
+// AUIPC + JALR pair.  On RV64 the U-type result is the 32-bit value imm20 << 12 SIGN-EXTENDED to 64
+// bits (RISC-V unprivileged ISA, 2.4 / 5.2: "LUI places the 32-bit U-immediate into register rd ...
+// the 32-bit result is sign-extended to 64 bits", likewise AUIPC).  So X is representable exactly
+// when there are hi in [-2^19, 2^19) and lo in [-2^11, 2^11) with (hi << 12) + lo == X, i.e.
+//     -2^31 - 2^11 <= X < 2^31 - 2^11,
+// which is what GNU ld checks (bfd/elfnn-riscv.c: `ARCH_SIZE > 32 && !VALID_UTYPE_IMM
+// (RISCV_CONST_HIGH_PART (relocation))` -> bfd_reloc_overflow for exactly these types) and lld
+// (ELF/Arch/RISCV.cpp: checkInt(loc, SignExtend64(val + 0x800, bits) >> 12, 20, rel) on RV64).
+fn rv_hi20_class(r_type: u32) -> bool {
+    matches!(
+        r_type,
+        e::R_RISCV_HI20
+            | e::R_RISCV_PCREL_HI20
+            | e::R_RISCV_GOT_HI20
+            | e::R_RISCV_TLS_GOT_HI20
+            | e::R_RISCV_TLS_GD_HI20
+            | e::R_RISCV_TPREL_HI20
+            | e::R_RISCV_CALL
+            | e::R_RISCV_CALL_PLT
+    )
+}
+
+#[kani::proof]
+#[kani::unwind(9)]
+#[kani::stub(alloc::fmt::format, stubs::verif_format_stub)]
+#[kani::stub(std::backtrace::Backtrace::capture, stubs::verif_backtrace_stub)]
+fn c12_riscv64_lui_auipc_class_accepts_exactly_the_representable_values() {
+    let r_type: u32 = kani::any();
+    kani::assume(rv_hi20_class(r_type));
+    let Some(info) = crate::riscv64::relocation_type_from_raw(r_type) else {
+        assert!(false, "wild does not support a LUI/AUIPC-class RISC-V relocation");
+        return;
+    };
+    let v: i64 = kani::any();
+    let mut buf: [u8; 8] = kani::any();
+    let res = info.write_to_buffer(v as u64, &mut buf[..]);
+    let ok = res.is_ok();
+    core::mem::forget(res);
+    let representable = -(1i64 << 31) - (1i64 << 11) <= v && v < (1i64 << 31) - (1i64 << 11);
+    if representable {
+        assert!(ok, "a value the LUI/AUIPC + 12-bit pair can produce is rejected");
+    } else {
+        assert!(!ok, "a value the LUI/AUIPC + 12-bit pair cannot produce on RV64 is accepted (silent truncation)");
+    }
+}
+
+#[kani::proof]
+#[kani::unwind(9)]
+#[kani::stub(alloc::fmt::format, stubs::verif_format_stub)]
+#[kani::stub(std::backtrace::Backtrace::capture, stubs::verif_backtrace_stub)]
+fn c12_canary_riscv_class_reaches_ok() {
+    let Some(info) = crate::riscv64::relocation_type_from_raw(e::R_RISCV_CALL_PLT) else { return };
+    let v: i64 = kani::any();
+    let mut buf: [u8; 8] = kani::any();
+    let res = info.write_to_buffer(v as u64, &mut buf[..]);
+    let ok = res.is_ok();
+    core::mem::forget(res);
+    assert!(!ok, "canary: some value must be accepted");
+}
